@@ -133,11 +133,15 @@ class C31(C30):
                 sh = rng.choice([1, 2, 3, 5, 8, rng.randint(1, 20)])
                 bw, bh = vr[2] - vr[0] + 1, vr[3] - vr[1] + 1
                 sw, sh = min(sw, bw), min(sh, bh)
+                eff = sw
                 if screen == 6 and video in ('tandy', 'pcjr'):
+                    # Tandy SCREEN 6 GETs (and PUTs) twice the width given: keep the doubled rectangle inside
                     sw = max(1, min(sw, bw // 2))
+                    eff = 2 * sw
                 ox, oy = (0, 0) if (view is None or view[4]) else (vr[0], vr[1])
                 case = {'k2': 'sprite', 'video': video, 'screen': screen, 'view': view,
-                        'x0': rng.randint(vr[0], vr[2] - sw + 1) - ox, 'y0': rng.randint(vr[1], vr[3] - sh + 1) - oy,
+                        'x0': rng.randint(vr[0], max(vr[0], vr[2] - eff + 1)) - ox,
+                        'y0': rng.randint(vr[1], vr[3] - sh + 1) - oy,
                         'w': sw, 'h': sh, 'seed': rng.randrange(1 << 30)}
                 key = 'sprite'
             else:
